@@ -1,4 +1,5 @@
 import ElaVerif.Lemmas.BlockStore
+import ElaVerif.Model.BlockIds
 /-!
 # C18 — stored blocks read back byte-for-byte
 
@@ -398,5 +399,132 @@ theorem C18_obstructed_commit_ok (crc : Bytes → Nat) (s : Store) (n : Nat)
       rw [hb] at this
       simp only at this
       simp [this]
+
+/-! ## the tx index's internal block ids (`indexers/txindex.go`): what `FetchBlockRegion` by tx location resolves through -/
+section BlockIds
+open ElaVerif.BlockIds
+
+/-- the ids in use are exactly `1 … cur` -/
+def Contiguous (s : Ids) : Prop := ∀ i, s.present i = (decide (1 ≤ i) && decide (i ≤ s.cur))
+
+theorem C18_txindex_ids_connect (s : Ids) (h : Contiguous s) : Contiguous (connect s) := by
+  intro i
+  simp only [connect, h i]
+  by_cases h1 : i = s.cur + 1
+  · subst h1; simp
+  · have : (i == s.cur + 1) = false := by simp [h1]
+    simp only [this, Bool.false_or]
+    by_cases h2 : i ≤ s.cur
+    · have : i ≤ s.cur + 1 := by omega
+      simp [h2, this]
+    · have : ¬ i ≤ s.cur + 1 := by omega
+      simp [h2, this]
+
+theorem C18_txindex_ids_disconnect (s : Ids) (h : Contiguous s) (hc : 0 < s.cur) : Contiguous (disconnect s) := by
+  intro i
+  simp only [disconnect, h i]
+  by_cases h1 : i = s.cur
+  · rw [h1]
+    have : ¬ s.cur ≤ s.cur - 1 := by omega
+    simp [this]
+  · have : (i != s.cur) = true := by simp [h1]
+    simp only [this, Bool.true_and]
+    by_cases h2 : i ≤ s.cur
+    · have : i ≤ s.cur - 1 := by omega
+      simp [h2, this]
+    · have : ¬ i ≤ s.cur - 1 := by omega
+      simp [h2, this]
+
+theorem ids_scan_spec (p : Nat → Bool) (cur inc : Nat) (hinc : 0 < inc)
+    (hp : ∀ i, p i = (decide (1 ≤ i) && decide (i ≤ cur))) :
+    ∀ (f t hk : Nat), cur < t + f * inc → 1 ≤ t →
+      ((hk = 0 ∧ t = 1) ∨ (1 ≤ hk ∧ hk ≤ cur ∧ t = hk + inc)) →
+      let r := ElaVerif.BlockIds.scan p inc f t hk
+      (r.1 = 0 ∧ r.2 = 1 ∧ cur = 0) ∨ (1 ≤ r.1 ∧ r.1 ≤ cur ∧ cur < r.2 ∧ r.2 = r.1 + inc) := by
+  intro f
+  induction f with
+  | zero =>
+    intro t hk hf ht hinv
+    simp only [ElaVerif.BlockIds.scan]
+    rcases hinv with ⟨h0, h1⟩ | ⟨h1, h2, h3⟩
+    · left; exact ⟨h0, h1, by omega⟩
+    · right; exact ⟨h1, h2, by omega, h3⟩
+  | succ f ih =>
+    intro t hk hf ht hinv
+    simp only [ElaVerif.BlockIds.scan]
+    by_cases hpt : p t = true
+    · simp only [hpt, if_true]
+      have htc : t ≤ cur := by
+        have := hp t; rw [hpt] at this
+        simp at this; omega
+      apply ih (t + inc) t
+      · have : (f + 1) * inc = f * inc + inc := Nat.succ_mul f inc
+        omega
+      · omega
+      · right; exact ⟨ht, htc, rfl⟩
+    · simp only [hpt, if_false]
+      have htc : cur < t := by
+        have := hp t
+        cases hq : p t with
+        | true => exact absurd hq hpt
+        | false => rw [hq] at this; simp at this; omega
+      rcases hinv with ⟨h0, h1⟩ | ⟨h1, h2, h3⟩
+      · left; exact ⟨h0, h1, by omega⟩
+      · right; exact ⟨h1, h2, htc, h3⟩
+
+theorem ids_bsearch_spec (p : Nat → Bool) (cur : Nat)
+    (hp : ∀ i, p i = (decide (1 ≤ i) && decide (i ≤ cur))) :
+    ∀ (f hk nu : Nat), 1 ≤ hk → hk ≤ cur → cur < nu → nu - hk ≤ f → bsearch p f hk nu = cur := by
+  intro f
+  induction f with
+  | zero => intro hk nu h1 h2 h3 h4; omega
+  | succ f ih =>
+    intro hk nu h1 h2 h3 h4
+    simp only [bsearch]
+    by_cases hpm : p ((hk + nu) / 2) = true
+    · have hm : (hk + nu) / 2 ≤ cur := by
+        have := hp ((hk + nu) / 2); rw [hpm] at this; simp at this; omega
+      simp only [hpm, if_true]
+      by_cases hx : (hk + nu) / 2 + 1 = nu
+      · simp only [hx, if_true]; omega
+      · simp only [hx, if_false]
+        apply ih <;> omega
+    · have hpm' : p ((hk + nu) / 2) = false := by
+        cases hq : p ((hk + nu) / 2) with
+        | true => exact absurd hq hpm
+        | false => rfl
+      have hm : cur < (hk + nu) / 2 := by
+        have := hp ((hk + nu) / 2); rw [hpm'] at this; simp at this; omega
+      simp only [hpm', Bool.false_eq_true, if_false]
+      by_cases hx : hk + 1 = (hk + nu) / 2
+      · simp only [hx, if_true]; omega
+      · simp only [hx, if_false]
+        apply ih <;> omega
+
+/-- **`TxIndex.Init` recovers the current block id** whenever the ids in use are `1 … cur`. -/
+theorem C18_txindex_init (s : Ids) (h : Contiguous s) (inc fuel : Nat) (hinc : 0 < inc)
+    (hf1 : s.cur < 1 + fuel * inc) (hf2 : inc ≤ fuel) :
+    init s.present inc fuel = s.cur := by
+  unfold init
+  have hs := ids_scan_spec s.present s.cur inc hinc h fuel 1 0 hf1 (Nat.le_refl _) (Or.inl ⟨rfl, rfl⟩)
+  rcases hsc : ElaVerif.BlockIds.scan s.present inc fuel 1 0 with ⟨hk, nu⟩
+  rw [hsc] at hs
+  simp only at hs ⊢
+  rcases hs with ⟨h0, h1, h2⟩ | ⟨h1, h2, h3, h4⟩
+  · simp [h1, h2]
+  · have : nu ≠ 1 := by omega
+    simp only [this, if_false]
+    exact ids_bsearch_spec s.present s.cur h fuel hk nu h1 h2 h3 (by omega)
+
+/-- Without the decrement in `DisconnectBlock` the ids in use get a gap, and `Init` after a
+    restart settles below an id that is still in use: the next block reuses a live id. -/
+example :
+    let s0 : Ids := { present := fun i => decide (1 ≤ i) && decide (i ≤ 5), cur := 5 }
+    let bad : Ids := { (disconnect s0) with cur := 5 }   -- no decrement
+    let s1 := connect bad                                   -- ids 1,2,3,4,6
+    (init s1.present 4 8, s1.cur, s1.present 6) = (4, 6, true) := by
+  decide
+
+end BlockIds
 
 end ElaVerif.C18
